@@ -336,13 +336,15 @@ def check_case(case):
                                                        "event." + (P.event["type"] if P.event else "none")]
     nknown = 0
     for key, msg, fcall in [f for f in fails if f[0] in KNOWN]:
-        MG.stash_known(key, msg + "\n--- program ---\n" + P.text, dict(case, failing_call=fcall))
+        MG.stash_known(key, msg + "\n--- program ---\n" + P.text, dict(case, failing_call=dict(fcall, key=key)))
         nknown += 1
     fails = [f for f in fails if f[0] not in KNOWN]
     if nknown:
         classes.append("excluded_known_calls")
     if fails:
-        key, msg, fcall = fails[0]
+        want = (fc or {}).get("key")  # replay: the recorded finding first
+        key, msg, fcall = ([f for f in fails if f[0] == want] or fails)[0]
+        fcall = dict(fcall or {}, key=key)
         case["failing_call"] = fcall
         MG.note_failure()
         return Result(False, key=key, msg=msg + "\n--- program ---\n" + P.text)
